@@ -36,6 +36,7 @@ func (e *enc) ty(t *parser.Type) {
 		e.s("")
 		e.n(0)
 		e.n(0)
+		e.s("")
 		e.n(0)
 		return
 	}
@@ -52,6 +53,7 @@ func (e *enc) ty(t *parser.Type) {
 	} else {
 		e.n(0)
 	}
+	e.s(t.CppType)
 	e.anns(t.Annotations)
 }
 
